@@ -4,6 +4,7 @@ import CC.Spec.Cover
 import CC.Model.Sym
 import CC.Model.Mac
 import CC.Model.Wire
+import CC.Model.WireLen
 /-! # Line-protocol driver for the model
 
 One operation per input line, one canonical output line per input line. The Rust harness
@@ -518,19 +519,20 @@ def step (st : St) (line : String) : St × String :=
     let c := if cfg == "p256" then Wire.cfgP256 else Wire.cfgC25519
     match optBytes a with
     | some (some bs) =>
-      let res : Option Wire.Bytes :=
+      -- announced length = the model of `length()` (`CC.Model.WireLen`), not the length of the re-encoding
+      let res : Option (Nat × Wire.Bytes) :=
         match ty with
-        | "msk" => (Wire.deserialize (Wire.msk c) bs).map Wire.encMsk
-        | "mpk" => (Wire.deserialize (Wire.mpk c) bs).map Wire.encMpk
-        | "usk" => (Wire.deserialize (Wire.usk c) bs).map Wire.encUsk
-        | "enc" => (Wire.deserialize (Wire.xenc c) bs).map Wire.encXenc
-        | "hdr" => (Wire.deserialize (Wire.header c) bs).map Wire.encHeader
-        | "clr" => (Wire.deserialize Wire.clear bs).map Wire.encClear
-        | "struct" => (Wire.deserialize Wire.struct_ bs).map Wire.encStruct
+        | "msk" => (Wire.deserialize (Wire.msk c) bs).map (fun v => (Wire.lenMsk c v, Wire.encMsk v))
+        | "mpk" => (Wire.deserialize (Wire.mpk c) bs).map (fun v => (Wire.lenMpk c v, Wire.encMpk v))
+        | "usk" => (Wire.deserialize (Wire.usk c) bs).map (fun v => (Wire.lenUsk c v, Wire.encUsk v))
+        | "enc" => (Wire.deserialize (Wire.xenc c) bs).map (fun v => (Wire.lenXenc c v, Wire.encXenc v))
+        | "hdr" => (Wire.deserialize (Wire.header c) bs).map (fun v => (Wire.lenHeader c v, Wire.encHeader v))
+        | "clr" => (Wire.deserialize Wire.clear bs).map (fun v => (Wire.lenClear v, Wire.encClear v))
+        | "struct" => (Wire.deserialize Wire.struct_ bs).map (fun v => (Wire.lenStruct v, Wire.encStruct v))
         | _ => none
       match res with
       | none => (st, "err Deserialize")
-      | some re => (st, "ok len=" ++ toString re.length ++ " rt=" ++ (if re = bs then "1" else "0"))
+      | some (n, re) => (st, "ok len=" ++ toString n ++ " rt=" ++ (if re = bs then "1" else "0"))
     | _ => (st, "bad-op")
   | "trace" :: cfg :: sHex :: rest =>
     -- the tracing relation on the real scalars: sum of marker_i * tracer_i = s in the scalar field
